@@ -10,6 +10,7 @@ package main
 
 import (
 	"bytes"
+	"context"
 	"encoding/json"
 	"fmt"
 	"io"
@@ -206,6 +207,10 @@ func run(id string, cfg propCfg, tier string) int {
 	}
 	sd := seed()
 
+	// Regression tier: the saved inputs of repaired defects (regress/<ID>/)
+	// are replayed first, each through the property's replay test.
+	regN, regViol, regKnown, regInc := runRegress(id, dir, gopatch, testbin)
+
 	results := make([]shardResult, tc.Shards)
 	var wg sync.WaitGroup
 	for k := 0; k < tc.Shards; k++ {
@@ -284,6 +289,14 @@ func run(id string, cfg propCfg, tier string) int {
 		}
 	}
 
+	for k, v := range regKnown {
+		merged.Known[k] += v
+	}
+	if regInc != "" && inconclusive == "" {
+		inconclusive = regInc
+	}
+	merged.Notes[fmt.Sprintf("regression-inputs-replayed:%d", regN)] = 1
+
 	// Persist replays (stale ones of an earlier run with the same id, tier
 	// and seed are removed first).
 	replayDir := filepath.Join(verifRoot, "replays")
@@ -358,7 +371,7 @@ func run(id string, cfg propCfg, tier string) int {
 		"coverage":    cov,
 		"assumptions": cfg.Assumptions,
 		"wall_s":      float64(int(wall*10)) / 10,
-		"violations":  len(violations),
+		"violations":  len(violations) + len(regViol),
 	}
 	evb, _ := json.MarshalIndent(ev, "", " ")
 	evPath := filepath.Join(verifRoot, "evidence", id+".json")
@@ -380,11 +393,18 @@ func run(id string, cfg propCfg, tier string) int {
 	for _, kid := range sortedKeys(merged.Known) {
 		fmt.Printf("KNOWN-FINDING: property=%s %s (%d hits)\n", id, describeKnown(id, kid), merged.Known[kid])
 	}
+	for _, rv := range regViol {
+		fmt.Printf("VIOLATION property=%s replay=%s\n", id, rv)
+		fmt.Printf("  the saved input of a repaired defect fails again\n")
+	}
 	if len(violations) > 0 {
 		for i, v := range violations {
 			fmt.Printf("VIOLATION property=%s replay=%s\n", id, kept[i])
 			fmt.Printf("  %s\n", strings.ReplaceAll(tail([]byte(v.Message), 1500), "\n", "\n  "))
 		}
+		return 1
+	}
+	if len(regViol) > 0 {
 		return 1
 	}
 	if inconclusive != "" {
@@ -470,6 +490,65 @@ func runShard(id, tier, dir, gopatch, testbin string, tc tierCfg, sd int64, k in
 	// rapid prints "OK, passed N tests"; fewer than requested means the
 	// deadline cut the run short.
 	return res
+}
+
+// runRegress replays every file of regress/<id>/ and reports the files that
+// violate the property again.
+func runRegress(id, dir, gopatch, testbin string) (n int, violating []string, known map[string]int, inconclusive string) {
+	known = map[string]int{}
+	files, _ := filepath.Glob(filepath.Join(verifRoot, "regress", id, "*.json"))
+	sort.Strings(files)
+	tmp := filepath.Join(dir, "tmp-regress")
+	_ = os.MkdirAll(tmp, 0o755)
+	type res struct {
+		viol  bool
+		known map[string]int
+		bad   string
+	}
+	out := make([]res, len(files))
+	sem := make(chan struct{}, runtime.NumCPU())
+	var wg sync.WaitGroup
+	for i, f := range files {
+		wg.Add(1)
+		go func(i int, f string) {
+			defer wg.Done()
+			sem <- struct{}{}
+			defer func() { <-sem }()
+			shardOut := filepath.Join(dir, fmt.Sprintf("regress-%d.json", i))
+			ctx, cancel := context.WithTimeout(context.Background(), 5*time.Minute)
+			defer cancel()
+			cmd := exec.CommandContext(ctx, testbin, "-test.run", "^TestReplay"+id+"$", "-test.count", "1")
+			cmd.Dir = filepath.Join(verifRoot, "harness", "props")
+			cmd.Env = append(goEnv(), "VERIF_REPLAY="+f, "VERIF_GOPATCH="+gopatch, "VERIF_TMP="+tmp, "TMPDIR="+tmp,
+				"VERIF_SHARD_OUT="+shardOut, "VERIF_REPLAY_OUT="+filepath.Join(dir, fmt.Sprintf("regress-replay-%d.json", i)), "VERIF_TIER=quick",
+				"VERIF_BUILD_DIR="+dir, "VERIF_TESTBIN="+testbin, "VERIF_ROOT="+verifRoot)
+			b, err := cmd.CombinedOutput()
+			var s evid.Shard
+			if sb, rerr := os.ReadFile(shardOut); rerr == nil {
+				_ = json.Unmarshal(sb, &s)
+			}
+			out[i].known = s.Known
+			switch {
+			case len(s.Violations) > 0:
+				out[i].viol = true
+			case err != nil:
+				out[i].bad = fmt.Sprintf("regression input %s: replay failed without recording a violation: %v\n%s", filepath.Base(f), err, tail(b, 800))
+			}
+		}(i, f)
+	}
+	wg.Wait()
+	for i, f := range files {
+		if out[i].viol {
+			violating = append(violating, f)
+		}
+		for k, v := range out[i].known {
+			known[k] += v
+		}
+		if out[i].bad != "" && inconclusive == "" {
+			inconclusive = out[i].bad
+		}
+	}
+	return len(files), violating, known, inconclusive
 }
 
 func replay(id string, cfg propCfg, file string) int {
